@@ -184,27 +184,93 @@ def _check_valid(pc, formula, want_model=True, timeout_ms=None, second_backend=T
                 return 'proved', 'cvc5', time.time() - t0, None, s1
     except z3.Z3Exception:
         pass
-    for depth in (1, 2, 3):
-        try:
-            ax0 = sym.instantiate_axioms(fs, rounds=depth) + sym.length_axioms(fs)
-            ax0 += sym.structural_axioms(fs + ax0)
-            s0 = z3.Solver()
-            s0.set('timeout', 4000)
-            s0.add(*fs)
-            s0.add(*ax0)
-            if s0.check() == z3.unsat:
-                return 'proved', 'z3', time.time() - t0, None, s0
-        except z3.Z3Exception:
-            break
     ax = sym.instantiate_axioms(fs)
     ax += sym.length_axioms(fs)
     ax += sym.structural_axioms(fs + ax)
     ax += sym.str_elem_distinct()
+    # lazy stage: start from the path condition alone and add only the axiom instances a candidate model violates.  `unsat`
+    # at any point proves the obligation (fewer hypotheses); a model that satisfies every instance is a genuine counter-model
+    # of the instantiated query and is handed to the refinement below.  This finds counter-models the eager query (hundreds
+    # of sequence axioms at once) leaves `unknown`.
+    try:
+        sl = z3.Solver()
+        sl.set('timeout', 3000)
+        sl.add(*fs)
+        pending = list(ax)
+        lazy_deadline = time.time() + 20
+        for _round in range(40):
+            if time.time() > lazy_deadline:
+                break
+            rl = sl.check()
+            if os.environ.get('PYVC_DBG'):
+                print('   [lazy] round', _round, rl, len(pending), flush=True)
+            if rl == z3.unsat:
+                return 'proved', 'z3', time.time() - t0, None, sl
+            if rl != z3.sat:
+                # z3's sequence solver gives up on inputs it decides at once from another starting point: retry the same
+                # assertions in fresh solvers with other seeds
+                for seed in (7, 23, 101):
+                    s2 = z3.Solver()
+                    s2.set('timeout', 3000)
+                    s2.set('random_seed', seed)
+                    s2.add(*sl.assertions())
+                    rl = s2.check()
+                    if rl != z3.unknown:
+                        sl = s2
+                        break
+                if rl == z3.unsat:
+                    return 'proved', 'z3', time.time() - t0, None, sl
+                if rl != z3.sat:
+                    break
+            ml = sl.model()
+            bad, rest = [], []
+            for a in pending:
+                try:
+                    v = ml.eval(a, model_completion=True)
+                except z3.Z3Exception:
+                    v = None
+                if v is not None and z3.is_true(v):
+                    rest.append(a)
+                else:
+                    bad.append(a)
+            if not bad:
+                if want_model:
+                    # every instantiated axiom holds in this model: let the eager solver below start from the same facts
+                    pass
+                lazy_model = ml
+                sfull = sl
+                r_lazy = z3.sat
+                break
+            sl.add(*bad[:60])
+            pending = rest + bad[60:]
+        else:
+            r_lazy = None
+    except z3.Z3Exception as _e:
+        globals()['_dbg'] = repr(_e)
+    if locals().get('r_lazy') != z3.sat:
+        for depth in (1, 2, 3):
+            try:
+                ax0 = sym.instantiate_axioms(fs, rounds=depth) + sym.length_axioms(fs)
+                ax0 += sym.structural_axioms(fs + ax0)
+                s0 = z3.Solver()
+                s0.set('timeout', 4000)
+                s0.add(*fs)
+                s0.add(*ax0)
+                if s0.check() == z3.unsat:
+                    return 'proved', 'z3', time.time() - t0, None, s0
+            except z3.Z3Exception:
+                break
     s = z3.Solver()
     s.set('timeout', timeout_ms or Z3_TIMEOUT_MS)
     s.add(*fs)
     s.add(*ax)
     r = s.check()
+    if r == z3.unknown and locals().get('r_lazy') == z3.sat:
+        # the eager query is too hard, the lazy one produced a model of the path condition, the negated goal and every
+        # instantiated axiom
+        # (the remaining instances all evaluate to true in that model, they need not be added)
+        s = sfull
+        r = z3.sat
     # counter-model refinement: a model may violate homomorphism axioms that were not instantiated because
     # the argument is a variable; unfold them on the model's value of the argument and re-solve
     rounds = 0
